@@ -17,7 +17,8 @@ from harness.C14 import oracle
 
 # theorems of Props/C14.lean; the ones in PROPS_GEN mention the regenerated configuration / tables (Gen/Int64.lean)
 PROPS_GEN = ["no_ub", "compare_mixed_correct", "compare_mixed_correct_unsigned", "compare_mixed_correct_rat", "method_tables_ok", "dispatch_left_then_reversed_right",
-             "nary_mod_is_left_fold", "nary_rows_complete", "poly_compare_correct", "compare_chain_correct", "string_entries_complete"]
+             "nary_mod_is_left_fold", "nary_rows_complete", "poly_compare_correct", "compare_chain_correct", "string_entries_complete",
+             "math_registrations_ok"]
 PROPS = ["wrap_ops_eq_bitvec", "wrap_ops_in_range", "shift_ops_eq_bitvec", "divf_eq_floor_div", "mod_eq_floor_mod", "trunc_div_rem_correct",
          "mod_zero_is_dividend", "div_zero_errors", "no_ub_iff_guarded", "no_ub_partial", "ub_reachable_on_pinned",
          "cmpIntDbl_is_exact", "cmpIntDbl_eq_rat", "rnd53_exact_small_monotone_edge", "compare_mixed_correct_of_inclusive", "compare_mixed_partial",
@@ -31,7 +32,8 @@ PROPS = ["wrap_ops_eq_bitvec", "wrap_ops_in_range", "shift_ops_eq_bitvec", "divf
          "num_mod_zero_is_dividend", "num_mod_floor_convention", "num_rem_is_fmod", "vm_number_handlers",
          "int_to_double_exact", "to_number_round_trip", "to_bytes_round_trip",
          "rounded_integer_quotient_has_same_floor", "num_ops_exact_on_integers", "mod_side_condition", "num_mod_int_rounds_witness",
-         "number_ops_agree_with_s64_ops", "u64_ops_agree_on_nonneg"]
+         "number_ops_agree_with_s64_ops", "u64_ops_agree_on_nonneg",
+         "math_gcd_terminates_and_is_gcd", "math_gcd_lcm_on_integers", "math_integer_valued_functions", "math_cfuns"]
 # configuration-generic lemmas (audited separately when Props/C14 does not build, to show what still holds)
 LEMMAS = ["opMethod_add", "opMethod_sub", "opMethod_mul", "opMethod_and", "opMethod_or", "opMethod_xor", "notMethod_bitvec", "opMethod_shl", "opMethod_sar",
           "divf_eq_floor_div", "mod_eq_floor_mod", "trunc_div_rem_correct", "mod_zero_is_dividend", "div_zero_errors", "no_ub_iff_guarded", "no_ub_partial",
@@ -212,6 +214,9 @@ def run(ctx):
     for l, op, x, y, has_u in fam:
         fam_info.setdefault(l, (op, x, y, has_u))
     lines += [l for l, _, _, _, _ in fam]
+    # math.c: math/floor ceil trunc round abs gcd lcm (model Int64/MathFns.lean, oracle: exact rationals)
+    n_math = 4000 if quick else 80000
+    lines += oracle.math_lines(ctx.rng, n_math, oracle.Pools(ctx.rng, 50).n)
     seen = set()
     lines = [l for l in lines if not (l in seen or seen.add(l))]
     ctx.say("generated %d distinct cases (%d targeted)" % (len(lines), len(targeted)))
